@@ -248,12 +248,52 @@ Proof.
   intros p acc d' _. apply (sus_pointer w p _ body Hs Hb).
 Qed.
 
+(* the same with the pointer computed inside the loop: `for n in range(k): p = start + n * distance` *)
+Lemma sus_equiv_idx w inds k
+      (body : nat * Q -> M (nat * Q)) :
+  (forall i acc d,
+     body (i, acc) d = match nth_error (py_sorted_rev f_lt inds) (i + 1) with
+                       | Some x => if has_val0 w x then Ok (i + 1, (acc + val0 w x)%Q) d else Raise IndexError
+                       | None => Raise IndexError
+                       end) ->
+  forall ds,
+    (t <- mapM (fun x => index (values w x) 0) inds ;;
+     if Nat.eqb k 0 then ret [] else
+     distance <- qdivM (qsum t) (Qnat k) ;;
+     start <- uniformM (0 # 1) distance ;;
+     chosen <- for_each (seq 0 k) (fun n chosen =>
+                 let p := (start + Qnat n * distance)%Q in
+                 t5 <- index (py_sorted_rev f_lt inds) 0 ;; sum_ <- index (values w t5) 0 ;;
+                 bind (while_fuel (S (length (py_sorted_rev f_lt inds))) (fun '(_, sum_) => Qltb sum_ p) body (0, sum_))
+                      (fun '(i, _) => t9 <- index (py_sorted_rev f_lt inds) i ;; ret (chosen ++ [t9]))) [] ;;
+     ret chosen) ds = selSUS w inds k ds.
+Proof.
+  intros Hb ds. unfold selSUS. unfold bind at 1.
+  rewrite (mapM_raise _ (val0 w) (has_val0 w) IndexError inds
+             (fun x d => index_values0_ok w x d)
+             (fun x d H => eq_trans (index_values0 w x d) (f_equal (fun b : bool => if b then _ else _) H))).
+  destruct (forallb (has_val0 w) inds) eqn:Hall; [|reflexivity]. cbn [negb].
+  assert (Hs : forallb (has_val0 w) (py_sorted_rev f_lt inds) = true).
+  { rewrite (forallb_perm _ _ _ (py_sorted_rev_perm f_lt inds)). exact Hall. }
+  destruct (Nat.eqb_spec k 0) as [->|Hk]; [reflexivity|].
+  unfold bind at 1. rewrite (qdivM_ok _ _ ds (Qnat_neq0 k Hk)).
+  unfold uniformM. rewrite bind_assoc. apply bind_ext. intros u d. rewrite bind_ret_l.
+  cbv zeta.
+  rewrite for_each_append_nil with
+    (f := fun n => sus_pick w (py_sorted_rev f_lt inds)
+                     (0 + (qsum (map (val0 w) inds) / Qnat k - 0) * u + Qnat n * (qsum (map (val0 w) inds) / Qnat k))%Q).
+  - unfold sus_points. cbv zeta. symmetry. apply mapM_map.
+  - intros n acc d' _. apply (sus_pointer w _ _ body Hs Hb).
+Qed.
+
 Lemma gen_selSUS_eq w inds k ds : gen_selStochasticUniversalSampling w inds k ds = selSUS w inds k ds.
 Proof.
   first [ reflexivity
         | unfold gen_selStochasticUniversalSampling; cbv zeta;
-          apply (sus_equiv w inds k (fun '(i, sum_) =>
-                   t7 <- index (py_sorted_rev f_lt inds) (i + 1) ;; t8 <- index (values w t7) 0 ;; ret (i + 1, (sum_ + t8)%Q)));
+          first [ apply (sus_equiv w inds k (fun '(i, sum_) =>
+                     t7 <- index (py_sorted_rev f_lt inds) (i + 1) ;; t8 <- index (values w t7) 0 ;; ret (i + 1, (sum_ + t8)%Q)))
+                | apply (sus_equiv_idx w inds k (fun '(i, sum_) =>
+                     t7 <- index (py_sorted_rev f_lt inds) (i + 1) ;; t8 <- index (values w t7) 0 ;; ret (i + 1, (sum_ + t8)%Q))) ];
           intros i acc d; unfold index, bind, ret, raise;
           destruct (nth_error (py_sorted_rev f_lt inds) (i + 1)) as [x|]; [|reflexivity];
           unfold has_val0, val0, val; destruct (values w x); reflexivity ].
@@ -308,17 +348,33 @@ Ltac round_with tac :=
   intros ? ? ?; unfold fit_round, size_round; refine (eq_trans _ (eq_sym (bind_assoc _ _ _ _)));
   apply bind_ext2; [tac | round_tail].
 
+(* the comprehension form `[<one round> for i in range(k)]` *)
+Lemma rounds_mapM {B} (round : M B) k (body : nat -> M B) ds :
+  (forall i d, body i d = round d) -> mapM body (seq 0 k) ds = repeatM k round ds.
+Proof.
+  intro H. rewrite (mapM_ext body (fun _ => round) _ (fun i d _ => H i d)). apply mapM_const_seq.
+Qed.
+
+Ltac round_with_m tac :=
+  intros ? ?; unfold fit_round, size_round; apply bind_ext2; [tac | round_tail].
+
+(* a loop of rounds in either form; tac proves that the `select` the round calls is the model's *)
+Ltac rounds tac :=
+  first [ apply rounds_loop; round_with tac
+        | apply rounds_mapM; round_with_m tac ].
+
 Lemma gen_selDoubleTournament_eq inds k fs ps ff ds :
   gen_selDoubleTournament inds k fs ps ff ds = selDoubleTournament inds k fs ps ff ds.
 Proof.
   first [ reflexivity
         | unfold gen_selDoubleTournament, selDoubleTournament;
           destruct (negb (Qle_bool 1 ps && Qle_bool ps 2)); [reflexivity|];
-          destruct ff; cbv beta zeta;
-          [ rewrite sizeTournament_rounds; apply rounds_loop;
-            round_with ltac:(rewrite fitTournament_rounds; apply rounds_loop; round_with ltac:(apply gen_selRandom_eq))
-          | rewrite fitTournament_rounds; apply rounds_loop;
-            round_with ltac:(rewrite sizeTournament_rounds; apply rounds_loop; round_with ltac:(apply gen_selRandom_eq)) ] ].
+          (* `if fitness_first: A else: B` or `if not fitness_first: B ... A`: decide the flag, then whichever nesting the model has *)
+          destruct ff; cbv beta iota zeta delta [negb];
+          first [ rewrite sizeTournament_rounds;
+                  rounds ltac:(rewrite fitTournament_rounds; rounds ltac:(apply gen_selRandom_eq))
+                | rewrite fitTournament_rounds;
+                  rounds ltac:(rewrite sizeTournament_rounds; rounds ltac:(apply gen_selRandom_eq)) ] ].
 Qed.
 
 (* ------------------------------------------------------------------ selTournamentDCD *)
@@ -351,12 +407,6 @@ Proof.
   intros Hb ds. rewrite bind_ret_r.
   rewrite (for_each_collect _ body (dcd_group l1 l2) (fun g => g) (fun i acc d _ => Hb i acc d)).
   rewrite dcd_loop_groups. unfold range_step. rewrite Nat.sub_0_r. reflexivity.
-Qed.
-
-Lemma mapM_map {A B C} (f : B -> M C) (g : A -> B) l : forall ds, mapM f (map g l) ds = mapM (fun x => f (g x)) l ds.
-Proof.
-  induction l as [|x r IH]; intro ds; [reflexivity|]. cbn [map mapM]. apply bind_ext. intros y d.
-  apply bind_ext2; [apply IH|]. reflexivity.
 Qed.
 
 (* the same loop over group numbers, `for j in range((k + 3) // 4): i = 4 * j` *)
